@@ -1406,9 +1406,9 @@ class Rsa(Base):
             return None
         return R.get(self.sig, n)
 
-    def keygen(self, bits):
+    def keygen(self, bits, case_key=None):
         ctx, R = self.ctx, self.R
-        if not prep(ctx, "cp_rsa_gen|bits=%d" % bits, [bits], budget=300):
+        if not prep(ctx, case_key or "cp_rsa_gen|bits=%d" % bits, [bits], budget=300):
             return None
         try:
             pub, prv = R.rsa_new(), R.rsa_new()
@@ -1478,6 +1478,108 @@ class Rsa(Base):
         mh = H(msg)
         for em in (bytes(k - 2 - len(mh) - 60) + b"\xff" + mh + self.rbytes(60), b"\x00\xff" + self.rbytes(k - 2 - len(mh)) + mh):
             self.one("overlong-digest", "hashed", key, pow(int.from_bytes(em, "big"), d, n).to_bytes(k, "big"), msg, 0)
+
+    # ------------------------------------------------------------------ every modulus length near the minimum / multiples of 8
+    def min_nbits(self):
+        """smallest modulus the configured padding can sign a SHA-256 digest with"""
+        if self.pad == "pss":
+            return 8 * (cprt.HL + 0 + 2 - 1) + 2          # emLen = ceil((nbits - 1) / 8) >= hLen + sLen + 2, sLen = 0
+        if self.pad == "pkcs1":
+            return 8 * (11 + len(cprt.SHA256_DI) + cprt.HL - 1) + 1
+        return 8 * (cprt.HL + 2 - 1) + 1
+
+    def sweep_class(self, sg, key):
+        """class of an honest signature computed from the inputs: besides the modulus length, whether the masked data
+        block of the PSS encoding has fewer 64-bit digits than its length implies (its leading octets are zero)"""
+        nb = key["nbits"]
+        if nb % 8 == 1:
+            return "nbits%8=1"
+        if self.pad != "pss":
+            return "regular"
+        emlen = (nb + 6) // 8
+        L = emlen - cprt.HL - 1
+        mdb = pow(int.from_bytes(sg, "big"), key["e"], key["n"]) >> (8 * (cprt.HL + 1))
+        W = self.R.DIG
+        used = max(1, (mdb.bit_length() + W - 1) // W)
+        return "maskedDB-short" if 1 < used <= (8 * L - 1) // W else "regular"
+
+    def directed_small(self):
+        """PSS moduli with emLen < hLen + 8: cp_rsa_sig builds M' = 00^8 || mHash in a scratch buffer of emLen octets
+        (fatal on some trees).  Returns True when the class may be produced at full rate."""
+        ctx, R = self.ctx, self.R
+        if self.pad != "pss":
+            return True
+        lo = self.min_nbits()
+        key = None
+        for bits in (lo, lo + 1, lo + 2, lo + 3):
+            key = self.keygen(bits, "cp_rsa_gen|sweep")
+            if key is not None and lo <= key["nbits"] < 8 * (cprt.HL + 8 - 1) + 2:
+                break
+        else:
+            return False
+        if not ctx.begin("cp_rsa_sig|emLen<%d" % (cprt.HL + 8), [key["bits"], key["nbits"]]):
+            return False        # crashed earlier in this run (or another key is being replayed): draw around it
+        try:
+            msg = b"abc"
+            sg = self.lib_sig(msg, 0, key)
+            if ctx.check(sg is not None, ctx.cur_key + "|unexpected-error"):
+                ctx.check(self.model(sg, msg, 0, key), ctx.cur_key + "|model-rejects", {"sig": sg.hex(), "n": hx(key["n"])})
+        except MonitorViolation as ex:
+            ctx.fail(ctx.cur_key + "|" + ex.kind, ex.detail)
+        finally:
+            ctx.end()
+        return True
+
+    def sweep(self, small_ok):
+        ctx, R, rng = self.ctx, self.R, self.rng
+        q = ctx.quick
+        lo = self.min_nbits()
+        safe = 8 * (cprt.HL + 8 - 1) + 2 if self.pad == "pss" else lo
+        top = R.K["RLC_BN_BITS"]           # larger moduli exceed the configured precision (ERR_NO_PRECI inside bn_div): not judged
+        sizes = set(range(safe, safe + 25))
+        if small_ok and ctx.shard == 0:
+            sizes |= set(range(lo, min(safe, lo + 25)))
+        for base in (768, 1016, 1024) + (() if q else (392, 400, 456, 464, 648, 656, 896, 904, 960)):
+            sizes |= set(range(base - 2, base + 3))
+        for base in (520, 584) + (() if q else (648, 712)):
+            sizes |= set(range(base - 2, base + 11))         # emLen = 2 mod 8: a single octet of the data block in the top digit
+        sizes = sorted(x for x in sizes if lo <= x <= top)
+        per = 2 if q else 4
+        have = {}
+        ctx.note("sweep_modulus_lengths", [sizes[0], sizes[-1], len(sizes)])
+        for idx, nbw in enumerate(sizes):
+            if not (nbw < safe or ctx.mine(idx)):
+                continue
+            tries = 0
+            while have.get(nbw, 0) < per and tries < 12:
+                tries += 1
+                key = self.keygen(nbw + (tries % 2), "cp_rsa_gen|sweep")
+                if key is None or key["nbits"] != nbw:
+                    continue
+                have[nbw] = have.get(nbw, 0) + 1
+                emlen = (nbw + 6) // 8
+                special = self.pad == "pss" and (emlen - cprt.HL - 1) % 8 == 1      # one octet in the top digit
+                for it in range((100 if q else 300) if special else (20 if q else 60)):
+                    pre = it % 2
+                    msg = self.rbytes(32) if pre else self.rbytes(rng.choice([0, 1, 20, 55, 64]))
+                    if not prep(ctx, "cp_rsa_sig|honest,nbits=%d" % nbw, [nbw, len(msg), pre]):
+                        continue
+                    try:
+                        sg = self.lib_sig(msg, pre, key)
+                        if not ctx.check(sg is not None, ctx.cur_key + "|unexpected-error", {"n": hx(key["n"])}):
+                            continue
+                        ctx.check(len(sg) == key["k"], ctx.cur_key + "|length", {"len": len(sg)})
+                        cls = self.sweep_class(sg, key)
+                        ctx.check(self.model(sg, msg, pre, key), "cp_rsa_sig|honest,nbits=%d,%s|model-rejects" % (nbw, cls),
+                                  {"sig": sg.hex(), "msg": msg.hex(), "n": hx(key["n"])})
+                        lv = self.lib_ver(sg, msg, pre, key)
+                        ctx.check(lv == "acc", "cp_rsa_ver|honest,nbits=%d,%s|rejected" % (nbw, cls),
+                                  {"lib": lv, "n": hx(key["n"]), "e": hx(key["e"]), "msg": msg.hex(), "prehashed": pre, "sig": sg.hex()})
+                    except MonitorViolation as ex:
+                        ctx.fail(ctx.cur_key + "|" + ex.kind, ex.detail)
+                    finally:
+                        ctx.end()
+        ctx.note("sweep_keys_per_length", have)
 
     def run_key(self, key, heavy):
         ctx, R, rng = self.ctx, self.R, self.rng
@@ -1646,6 +1748,8 @@ def run_rsa(ctx):
         return
     sizes = [1024, 1018, 768, 1010, 1017, 520] if ctx.quick else [1024, 1018, 1017, 1016, 1010, 1009, 1002, 768, 521, 520, 512]
     seen = {}
+    small_ok = w.directed_small() if ctx.shard == 0 else False      # fatal on some trees: first, in one shard
+    w.sweep(small_ok)
     # every worker generates its own keys (the library's generator is deterministic per process: same keys in
     # every shard); a modulus whose bit length is 1 mod 8 (emLen = k - 1) is searched for explicitly
     for i, bits in enumerate(sizes):
